@@ -726,7 +726,10 @@ class MemorizedFunc(Logger):
                 self.store_backend.get_cached_func_code([self.func_id])
             )
         except (IOError, OSError):  # some backend can also raise OSError
-            self._write_func_code(func_code, first_line)
+            # Without a readable source code, results possibly left in the
+            # function directory (e.g. by an interrupted clear) cannot be
+            # attributed to the current code: wipe them before storing it.
+            self.clear(warn=False)
             return False
         if old_func_code == func_code:
             return True
